@@ -34,9 +34,28 @@ Definition chk_label_swap_twice (fr : ffr) (from to : Z) (c : cref) (k1 k2 : flo
            | None => None end) exp.
 Definition chk_label_join (fr : ffr) (from to : Z) (c : cref) (k1 k2 knew : float) (exp : option ffr) : bool :=
   ofr_eqb (call_label_join String.eqb feq fr from to c k1 k2 knew) exp.
-(** [m] = the value np.mean returned (oracle) *)
+(** [m] = the value np.mean returned (oracle); it must agree with the left-to-right mean of the
+    window column up to 1e-12 relative to the mean absolute value (numpy sums pairwise), be NaN on
+    an empty window, and agree in kind when the column holds non-finite values *)
+Definition fin (x : float) : bool := PrimFloat.eqb (PrimFloat.sub x x) 0%float.
+Definition mean_oracle_ok (m : float) (xs : list float) : bool :=
+  match xs with
+  | [] => PrimFloat.is_nan m
+  | _ =>
+      let n := float_ofZ (len xs) in
+      let mn := PrimFloat.div (fold_left PrimFloat.add xs 0%float) n in
+      let sc := PrimFloat.div (fold_left (fun a x => PrimFloat.add a (PrimFloat.abs x)) xs 0%float) n in
+      if fin sc then
+        PrimFloat.leb (PrimFloat.abs (PrimFloat.sub m mn))
+                      (PrimFloat.add (PrimFloat.mul 0x1p-40%float sc) 0x1p-1000%float)
+      else (PrimFloat.is_nan m && PrimFloat.is_nan mn) || PrimFloat.eqb m mn || negb (fin m)
+  end.
 Definition chk_shift (fr : ffr) (from to : Z) (c : cref) (sf alpha m : float) (exp : option ffr) : bool :=
-  ofr_eqb (call_shift NumFloat String.eqb (fun _ => m) fr from to c sf alpha) exp.
+  ofr_eqb (call_shift NumFloat String.eqb (fun _ => m) fr from to c sf alpha) exp
+  && match exp, resolve String.eqb fr c with
+     | Some _, Some i => mean_oracle_ok m (column 0%float i (win_rows from to (rows_of fr)))
+     | _, _ => true
+     end.
 Definition chk_brownian (fr : ffr) (from to : Z) (c : cref) (x0 : float) (signs : list Z)
   (exp : option ffr) : bool :=
   ofr_eqb (call_brownian NumFloat String.eqb fr from to c x0 signs) exp.
@@ -50,14 +69,28 @@ Definition chk_pdist (fr : ffr) (from to : Z) (c : cref) (cp : dict NumFloat)
   | Some _, None => false
   | None, _ => true
   end.
+(** the draws must point into the sampling pool (hypothesis [positions_ok] of the row theorems)
+    and there must be one draw per window row *)
+Definition positions_okb (fr : ffr) (from to : Z) (c : cref) (positions : list Z) : bool :=
+  match resolve String.eqb fr c with
+  | Some i =>
+      let g := grouped feq 0%float from to i (np_unique feq flt (column 0%float i (rows_of fr))) (rows_of fr) in
+      match g with
+      | [] => true
+      | _ => forallb (fun p => (0 <=? p) && (p <? len g)) positions && (len positions =? to - from)
+      end
+  | None => true
+  end.
 Definition chk_label_probability (fr : ffr) (from to : Z) (c : cref) (cp : dict NumFloat)
   (positions : list Z) (exp_p : option (list float)) (exp : option ffr) : bool :=
   ofr_eqb (call_label_probability NumFloat String.eqb fr from to c cp positions) exp
-  && chk_pdist fr from to c cp exp_p.
+  && chk_pdist fr from to c cp exp_p
+  && match exp with Some _ => positions_okb fr from to c positions | None => true end.
 Definition chk_label_dirichlet (fr : ffr) (from to : Z) (c : cref) (keys dir : list float)
   (positions : list Z) (exp_p : option (list float)) (exp : option ffr) : bool :=
   ofr_eqb (call_label_dirichlet NumFloat String.eqb fr from to c keys dir positions) exp
-  && chk_pdist fr from to c (combine keys dir) exp_p.
+  && chk_pdist fr from to c (combine keys dir) exp_p
+  && match exp with Some _ => positions_okb fr from to c positions | None => true end.
 
 (** [idxs] = row labels returned by pandas' group sampling; the oracle answer must be legal
     whenever the call succeeded *)
